@@ -126,9 +126,7 @@ func judgeC04(c SrvCase) []Violation {
 }
 
 func (w *World) peek(p string) (os.FileInfo, error) {
-	w.fs.logOn = false
-	defer func() { w.fs.logOn = true }()
-	return w.fs.Lstat(p)
+	return w.fs.Peek(p)
 }
 
 func genC04(rng *rand.Rand, n int) SrvCase {
